@@ -326,8 +326,33 @@ def token_sort():
     return TokenSort
 
 
+_struct_sorts = {}
+
+
+def struct_sort(ty):
+    """z3 datatype for fixed-shape tuples (`tuple[...]`) and string-keyed records
+    (`dictrec[key:type,...]`, used for the attribute dictionaries the parser produces)"""
+    key = repr(ty)
+    if key not in _struct_sorts:
+        d = z3.Datatype('S%d' % len(_struct_sorts))
+        if ty.name == 'tuple':
+            fields = [('f%d' % i, sort_of(a)) for i, a in enumerate(ty.args)]
+        else:
+            fields = [(a.name.split(':')[0], sort_of(parse_ty(a.name.split(':', 1)[1]))) for a in ty.args]
+        d.declare('mk', *fields)
+        _struct_sorts[key] = (d.create(), [f for f, _ in fields])
+    return _struct_sorts[key]
+
+
 def sort_of(ty):
     n = ty.name
+    if n in ('tuple', 'dictrec'):
+        return struct_sort(ty)[0]
+    if n == 'opt':
+        inner = ty.args[0]
+        if inner.name == 'str':
+            return Val           # Optional[str] as a map key/element: the universal sort
+        raise Unsupported('no z3 sort for %r' % ty)
     if n == 'int':
         return z3.IntSort()
     if n == 'bool':
@@ -344,6 +369,15 @@ def sort_of(ty):
 def wrap(ty, term):
     """z3 term of sort_of(ty) -> V"""
     n = ty.name
+    if n == 'tuple':
+        S, fields = struct_sort(ty)
+        return VTuple([wrap(a, getattr(S, f)(term)) for a, f in zip(ty.args, fields)])
+    if n == 'dictrec':
+        S, fields = struct_sort(ty)
+        return VDict({f: wrap(parse_ty(a.name.split(':', 1)[1]), getattr(S, f)(term))
+                      for a, f in zip(ty.args, fields)})
+    if n == 'opt':
+        return VAny(term)
     if n == 'int':
         return VInt(term)
     if n == 'bool':
@@ -365,6 +399,17 @@ def wrap(ty, term):
 def unwrap(ty, v):
     """V -> z3 term of sort_of(ty)"""
     n = ty.name
+    if n == 'tuple':
+        S, fields = struct_sort(ty)
+        return S.mk(*[unwrap(a, x) for a, x in zip(ty.args, v.items)])
+    if n == 'dictrec':
+        S, fields = struct_sort(ty)
+        return S.mk(*[unwrap(parse_ty(a.name.split(':', 1)[1]), v.items[f])
+                      for a, f in zip(ty.args, fields)])
+    if n == 'opt':
+        if isinstance(v, VToken):
+            return Val.str(v.s)        # tokens hash and compare like their text
+        return to_any(v).t
     if n in ('int', 'bool', 'str', 'bytes'):
         if n == 'str' and isinstance(v, VToken):
             return v.s
@@ -414,6 +459,13 @@ def fresh(ty, base='x'):
                       VStr(z3.String(fresh_name(base + '_filename'))))
     if n == 'tuple':
         return VTuple([fresh(a, '%s_%d' % (base, i)) for i, a in enumerate(ty.args)])
+    if n == 'dictrec':
+        return VDict({a.name.split(':')[0]: fresh(parse_ty(a.name.split(':', 1)[1]),
+                                                  base + '_' + a.name.split(':')[0]) for a in ty.args})
+    if n == 'list':
+        # a list with a concrete spine of the given length: list[T,3]
+        k = int(ty.args[1].name)
+        return VList([fresh(ty.args[0], '%s_%d' % (base, i)) for i in range(k)])
     if n == 'slice':
         return VSlice(fresh(Ty('opt', [Ty('int')]), base + '_start'),
                       fresh(Ty('opt', [Ty('int')]), base + '_stop'), NONE)
@@ -640,7 +692,8 @@ def ident(a, b):
         return z3.BoolVal(a.obj is b.obj)
     if isinstance(a, VBool) and isinstance(b, VBool):
         return a.t == b.t
-    if isinstance(a, (VRec, VList, VDict, VExc)) or isinstance(b, (VRec, VList, VDict, VExc)):
+    if isinstance(a, (VRec, VList, VDict, VExc, VMap, VSeq)) or \
+            isinstance(b, (VRec, VList, VDict, VExc, VMap, VSeq)):
         return z3.BoolVal(a is b)
     if type(a) is not type(b):
         return z3.BoolVal(False)
